@@ -39,6 +39,8 @@ theorem smallR_pos : 0 < smallR := by unfold smallR; positivity
   lt a b := @decide (RCLike.re a < RCLike.re b) (Classical.propDecidable _)
   small := ((smallR : ℝ) : 𝕜)
   ofNat n := (n : 𝕜)
+  one := 1
+  isZero a := @decide (a = 0) (Classical.propDecidable _)
 
 attribute [local instance] rcOps
 
@@ -198,8 +200,8 @@ variable {m : ℕ}
 /-- an `n × m` block as the model's array of columns -/
 def colsArr (B : Fin m → EuclideanSpace 𝕜 (Fin n)) : Array (Vec 𝕜) := Array.ofFn (fun j => toVec (B j))
 
-/-- the divisor `do_safe_div(·, mult)` uses for column `b` -/
-noncomputable abbrev normDen (b : EuclideanSpace 𝕜 (Fin n)) : 𝕜 := nden smallR b
+/-- the divisor of the normalisation of column `b` -/
+noncomputable abbrev normDen (b : EuclideanSpace 𝕜 (Fin n)) : 𝕜 := nscale b
 
 theorem mults_colsArr (B : Fin m → EuclideanSpace 𝕜 (Fin n)) :
     mults (colsArr B) = Array.ofFn (fun j => (((‖B j‖ : ℝ) : 𝕜))) := by
@@ -208,14 +210,23 @@ theorem mults_colsArr (B : Fin m → EuclideanSpace 𝕜 (Fin n)) :
   congr 1; funext j
   exact norm_toVec (B j)
 
-theorem vsafeDiv_toVec (v b : EuclideanSpace 𝕜 (Fin n)) :
-    vsafeDiv (toVec v) (((‖b‖ : ℝ) : 𝕜)) = toVec ((normDen b)⁻¹ • v) := by
-  unfold vsafeDiv toVec
+theorem scaleOf_norm (b : EuclideanSpace 𝕜 (Fin n)) :
+    scaleOf (((‖b‖ : ℝ) : 𝕜)) = normDen b := by
+  show (if NumOps.isZero (((‖b‖ : ℝ) : 𝕜)) = true then (1 : 𝕜) else ((‖b‖ : ℝ) : 𝕜)) =
+    (if (((‖b‖ : ℝ) : 𝕜)) = 0 then (1 : 𝕜) else ((‖b‖ : ℝ) : 𝕜))
+  have hz : (NumOps.isZero (((‖b‖ : ℝ) : 𝕜)) = true) ↔ (((‖b‖ : ℝ) : 𝕜)) = 0 := by
+    show @decide ((((‖b‖ : ℝ) : 𝕜)) = 0) (Classical.propDecidable _) = true ↔ _
+    exact @decide_eq_true_iff _ (Classical.propDecidable _)
+  by_cases h : (((‖b‖ : ℝ) : 𝕜)) = 0
+  · rw [if_pos h, if_pos (hz.mpr h)]
+  · rw [if_neg h, if_neg (fun h' => h (hz.mp h'))]
+
+theorem vdiv_toVec (v : EuclideanSpace 𝕜 (Fin n)) (d : 𝕜) : vdiv (toVec v) d = toVec (d⁻¹ • v) := by
+  unfold vdiv toVec
   rw [Array.map_ofFn]
   congr 1; funext i
-  show safeDiv (ofLp v i) _ = (normDen b)⁻¹ * ofLp v i
-  rw [safeDiv_eq, sdiv, div_eq_inv_mul]
-  rfl
+  show ofLp v i / d = d⁻¹ * ofLp v i
+  rw [div_eq_inv_mul]
 
 theorem initState_colsArr (A : Matrix (Fin n) (Fin n) 𝕜) (P : Option (Matrix (Fin n) (Fin n) 𝕜))
     (B X0 : Fin m → EuclideanSpace 𝕜 (Fin n)) :
@@ -224,11 +235,12 @@ theorem initState_colsArr (A : Matrix (Fin n) (Fin n) 𝕜) (P : Option (Matrix 
         ((normDen (B j))⁻¹ • B j) ((normDen (B j))⁻¹ • X0 j))) := by
   unfold initState
   simp only []
-  rw [mults_colsArr]
+  rw [mults_colsArr, Array.map_ofFn]
   unfold colsArr
   rw [zipWith_ofFn, zipWith_ofFn, zipWith_ofFn]
   congr 1; funext j
-  rw [vsafeDiv_toVec, vsafeDiv_toVec, initCol_toCol]
+  show initCol _ _ (vdiv _ (scaleOf (((‖B j‖ : ℝ) : 𝕜)))) (vdiv _ (scaleOf (((‖B j‖ : ℝ) : 𝕜)))) = _
+  rw [scaleOf_norm, vdiv_toVec, vdiv_toVec, initCol_toCol]
 
 /-- **bridge level 0 → 1, batched**: column `j` of the value returned by `run_batched_cg` is the
 guarded, normalised single-column run `gRun` with the number of steps the batched loop made -/
@@ -304,12 +316,12 @@ theorem xOut_zero (A : Matrix (Fin n) (Fin n) 𝕜) (P : Option (Matrix (Fin n) 
   unfold xOut; rw [hb]; exact gRun_zero _ _ _
 
 /-- **Krylov optimality of the model**: `A` and the preconditioner Hermitian positive definite,
-column `j` with `‖b_j‖ ≥ 1e-40` and no guard active during the steps the loop made ⇒ the returned
+column `j` with `b_j ≠ 0` and no guard active during the steps the loop made ⇒ the returned
 column lies in `x0 + K_k(MA, M r0)`, minimises the energy over it, and is the only minimiser. -/
 theorem xOut_optimal {A : Matrix (Fin n) (Fin n) 𝕜} (hA : A.PosDef)
     {P : Option (Matrix (Fin n) (Fin n) 𝕜)} (hP : PrecPosDef P)
     (B X0 : Fin m → EuclideanSpace 𝕜 (Fin n)) (maxIters : ℕ) (tol : 𝕜) (j : Fin m)
-    (hb : smallR ≤ ‖B j‖)
+    (hb : B j ≠ 0)
     (hg : GuardsOffN (Matrix.toEuclideanLin A) (precLin P) smallR (B j) (X0 j)
       (runSteps (matArr A) (P.map matArr) (colsArr B) (colsArr X0) maxIters tol))
     {xs : EuclideanSpace 𝕜 (Fin n)} (hxs : Matrix.toEuclideanLin A xs = B j) :
@@ -448,29 +460,26 @@ theorem cg_none_eq (A : Matrix (Fin n) (Fin n) 𝕜) (P : Option (Matrix (Fin n)
   rw [zeros_colsArr]
 
 theorem initState_scale (A : Matrix (Fin n) (Fin n) 𝕜) (P : Option (Matrix (Fin n) (Fin n) 𝕜))
-    (B : Fin m → EuclideanSpace 𝕜 (Fin n)) {c : ℝ} (hc : 0 < c)
-    (hB : ∀ j, B j = 0 ∨ (smallR ≤ ‖B j‖ ∧ smallR ≤ c * ‖B j‖)) :
+    (B : Fin m → EuclideanSpace 𝕜 (Fin n)) {c : ℝ} (hc : 0 < c) :
     initState (matArr A) (P.map matArr) (colsArr (fun j => (c : 𝕜) • B j)) (colsArr (zeroCols 𝕜 n m)) =
       initState (matArr A) (P.map matArr) (colsArr B) (colsArr (zeroCols 𝕜 n m)) := by
   refine State.ext' ?_ (by rw [initState_k, initState_k])
   rw [initState_colsArr, initState_colsArr]
   congr 1; funext j
   unfold zeroCols
-  rw [nden_smul hc (hB j), smul_zero, smul_zero]
+  rw [nscale_smul hc (B j), smul_zero, smul_zero]
 
-/-- **scaling**: `x0 = None`, `c > 0`, every column zero or with neither normalisation guarded
-(`‖b_j‖ ≥ 1e-40` and `c ‖b_j‖ ≥ 1e-40`): the run on `c • b` makes the same steps, reports the same
+/-- **scaling**: `x0 = None`, `c > 0`: the run on `c • b` makes the same steps, reports the same
 `info`, and returns `c` times the solution. -/
 theorem cg_scale (A : Matrix (Fin n) (Fin n) 𝕜) (P : Option (Matrix (Fin n) (Fin n) 𝕜))
-    (B : Fin m → EuclideanSpace 𝕜 (Fin n)) {c : ℝ} (hc : 0 < c)
-    (hB : ∀ j, B j = 0 ∨ (smallR ≤ ‖B j‖ ∧ smallR ≤ c * ‖B j‖)) (maxIters : ℕ) (tol : 𝕜) :
+    (B : Fin m → EuclideanSpace 𝕜 (Fin n)) {c : ℝ} (hc : 0 < c) (maxIters : ℕ) (tol : 𝕜) :
     let res := cg (matArr A) (colsArr B) none (P.map matArr) tol maxIters
     let res' := cg (matArr A) (colsArr (fun j => (c : 𝕜) • B j)) none (P.map matArr) tol maxIters
     res'.k = res.k ∧ res'.info = res.info ∧
       res.x = colsArr (xOut A P B (zeroCols 𝕜 n m) maxIters tol) ∧
       res'.x = colsArr (fun j => (c : 𝕜) • xOut A P B (zeroCols 𝕜 n m) maxIters tol j) := by
   intro res res'
-  have hi := initState_scale A P B hc hB
+  have hi := initState_scale A P B hc
   have hsteps : runSteps (matArr A) (P.map matArr) (colsArr (fun j => (c : 𝕜) • B j))
       (colsArr (zeroCols 𝕜 n m)) maxIters tol =
       runSteps (matArr A) (P.map matArr) (colsArr B) (colsArr (zeroCols 𝕜 n m)) maxIters tol := by
@@ -489,7 +498,7 @@ theorem cg_scale (A : Matrix (Fin n) (Fin n) 𝕜) (P : Option (Matrix (Fin n) (
     congr 1; funext j
     unfold xOut
     rw [hsteps]
-    exact gRun_smul hc (hB j) _
+    exact gRun_smul hc (B j) _
 
 /-! ## columns: the batched run against the single-column run -/
 
